@@ -1,4 +1,4 @@
--- PINNED by bin/pin_tables: copy of Gen/Dispatch.lean as generated from /repo at 8e9ee7a — regenerate, do not edit
+-- PINNED by bin/pin_tables: copy of Gen/Dispatch.lean as generated from /repo at c8ef102 — regenerate, do not edit
 namespace Ggql.Pinned
 def dispatchOrder : List String := ["resolver", "any", "reflect"]
 def opFallbackAnyName : Bool := false
@@ -9,6 +9,7 @@ def dupScalarDropped : Bool := false
 def dirArgWrapperAccepted : Bool := false
 def descRaw : Bool := false
 def assureOnce : Bool := false
+def inputNullTakesDefault : Bool := false
 def dirLoopByVisited : Bool := false
 def typeLookupFindsDirectives : Bool := false
 def dirRequiredUnchecked : Bool := false
@@ -32,7 +33,9 @@ def symbolUnchecked : Bool := false
 def symbolBaseEnum : Bool := false
 /-- hashes of the functions that form, coerce and hand on argument values (strings and comments stripped) -/
 def argSkeleton : List (String × String) := [
-  ("Input.CoerceIn", "114c7466e8b9"),
+  ("Input.CoerceIn", "1ae44ebae6eb"),
+  ("Input.reflectSet", "7a298a1de3ad"),
+  ("Input.reflectSetKey", "b97163bbb51d"),
   ("List.CoerceIn", "342314fa8b37"),
   ("NonNull.CoerceIn", "07c35bfdab4c"),
   ("Root.formArgs", "4ce1628b3fc4"),
